@@ -117,8 +117,9 @@ def _pool_context_manager(n_process: int) -> None:
 def _get_valid_filename(string: str) -> str:
     """Generate a valid filename from a string.
 
-    Strips all characters which are not alphanumeric or a period (.), dash (-)
-    or underscore (_).
+    Replaces all characters which are not alphanumeric or a period (.), dash (-),
+    underscore (_) or space by their percent-encoded code point, so that distinct
+    strings always give distinct file names.
 
     Based on https://stackoverflow.com/a/295146/4798943
 
@@ -128,7 +129,9 @@ def _get_valid_filename(string: str) -> str:
     Returns:
         Generated file name.
     """
-    return "".join(c for c in string if (c.isalnum() or c in "._- "))
+    return "".join(
+        c if (c.isalnum() or c in "._- ") else f"%{ord(c):06X}" for c in string
+    )
 
 
 def _generate_memmap_filenames(
